@@ -220,12 +220,23 @@ Definition check_minor (P : ninfo) (mn : minor) : bool :=
     end
   else true.
 
+(* shape of a determinant-type minor: no pivots, a square, duplicate-free submatrix within the node's matrix *)
+Definition minor_shape_ok (P : ninfo) (mn : minor) : bool :=
+  if mn_type mn =? -2 then
+    match mn_pr mn, mn_pc mn, mn_sub mn with
+    | [], [], Some (rs, cs) =>
+      Nat.eqb (length rs) (length cs) && all_lt (t_m P) rs && all_lt (t_n P) cs && nodupn rs && nodupn cs
+    | _, _, _ => false
+    end
+  else true.
+
 Definition check_flags (P : ninfo) : Z :=
   let M := t_M P in let m := t_m P in let n := t_n P in
   (* stored graphs reproduce the matrix *)
   if negb (match t_graph P with Some g => check_gcert (t_tern P) m n M g | None => true end) then 240
   else if negb (match t_cograph P with
                 | Some g => check_gcert (t_tern P) n m (transpose m n M) g | None => true end) then 241
+  else if negb (forallb (minor_shape_ok P) (t_minors P)) then 243
   else if negb (forallb (check_minor P) (t_minors P)) then 242
   (* node types *)
   else if (t_type P =? T_R10) && negb (is_R10 P) then 244
